@@ -30,6 +30,9 @@ CLAIMS = {
  'C13': dict(engine='ALG', technique='decision-tree abstract interpretation with parameters ordered through positive gap symbols; cell-by-cell identity with the documented pieces, symbolic slope signs and continuity at every breakpoint; sign-form rule for the smooth families; per-enumerator evaluation of the dispatchers with callees as uninterpreted terms; path-wise min/max resolution for the operators; polynomial comparison of buffer macro and layout',
    cat='other', text='trap/tri/lins/linz/s/z/pi/gauss2: on every elementary interval the code equals the documented piece, with the documented slope sign, continuity at all breakpoints, core exactly 1 and s+z = lins+linz = 1 (hence range [0,1]); gauss/gbell/sig/psig equal their formulas in a form that confines them to (0,1]; a_mf and a_pid_fuzzy_mf dispatch every enumerator to the like-named function with the parameters in order and the right cursor advance, a_pid_fuzzy_opr maps every operator constant; all 9 fuzzy operators equal their documented formulas on every path; A_PID_FUZZY_BFUZZ(n) and the idx/val layout equal 2n unsigneds + n(2+n) reals for both real widths',
    note=TRUST + ', sympy; parameters well ordered with non-zero widths (as the property states); commutativity/monotonicity/boundary/min-max-bound clauses follow from the documented operator formulas (standard t-norm facts), the checker proves code = formula; NOT decided: the defuzzifier loops (weighted mean between smallest and largest consequent) and the write extent of the joint-membership loops inside the scratch buffer (need nested-loop summaries; only macro size and layout are decided)'),
+ 'C07': dict(engine='PATH', technique='whole-unit CFG analysis of vec.c/buf.c/str.c/que.c: allocation sites by def-use of the loaded global a_alloc, bottom-up fallible-function summaries, boolean structure of branch conditions (truth-table entailment), pointer-provenance effect sets, dominance / all-paths-cross-an-edge / must-pass-through queries',
+   cat='other', text='A1 every allocation result is used only behind an edge entailing "non-null (or size 0)"; A2 allocate-then-mutate: for every failure point (21 a_alloc sites, every call to a fallible function) no container mutation can precede it and every later mutation is separated from it on all CFG paths by an edge establishing success; A3 every fallible result is tested or handed on and failure edges return the failure indicator; A4 successful allocations are stored/returned/freed on every path, reallocation never overwrites the owner untested, destructors free every owning field and die = dtor + free(self). This covers every allocation request of every operation being the failing one; "succeeds later" follows from the unchanged state',
+   note=TRUST + ', lib/path.py, lib/effects.py; assumes callbacks do not touch the container and a_alloc follows its documented protocol; spare-room writes behind the content of a string (the measuring vsnprintf) count as compensated when the failure path restores the terminator; NOT decided: exactly-once release over whole histories (only per-function ownership and destructor coverage); known findings (recorded, not repaired): a_que_drop and a_que_setz mutate before their fallible steps'),
 }
 
 NA = {
@@ -64,6 +67,7 @@ def main():
             {'name': 'irx+llir', 'path': 'lib/irx.py, lib/llir.py', 'serves_properties': sorted(CLAIMS), 'kind_free_text': 'clang/opt IR pipeline and IR reader (CFG, dominators, loops, def-use)'},
             {'name': 'ALG', 'path': 'lib/symx.py, lib/alg.py', 'serves_properties': ['C12', 'C13', 'C15', 'C16', 'C17', 'C19'], 'kind_free_text': 'abstract interpreter over exact algebraic values with trace partitioning'},
             {'name': 'BIT', 'path': 'lib/bit.py, lib/looptx.py', 'serves_properties': ['C17', 'C18', 'C19'], 'kind_free_text': 'GF(2) algebraic-normal-form bit vectors; loop-body state transformers'},
+            {'name': 'PATH', 'path': 'lib/path.py, lib/effects.py', 'serves_properties': ['C07', 'C12'], 'kind_free_text': 'CFG path, typestate and effect rules'},
             {'name': 'ABI', 'path': 'props/C20.py, lib/dwarf.py, lib/rustsrc.py', 'serves_properties': ['C20'], 'kind_free_text': 'declaration and layout agreement'},
         ],
         'checks': checks,
